@@ -116,7 +116,7 @@ func runC18(c *core.Ctx) {
 		}
 		lens = append(lens, 70000)
 	}
-	reps := c.Pick(2, 24)
+	reps := c.Pick(2, 60)
 	for _, l := range lens {
 		for rep := 0; rep < reps; rep++ {
 			if !c.Next() {
@@ -191,7 +191,7 @@ func runC18(c *core.Ctx) {
 		}
 	}
 	// ---- key ids
-	nk := c.Pick(24, 400)
+	nk := c.Pick(24, 2000)
 	for i := 0; i < nk; i++ {
 		if !c.Next() {
 			continue
